@@ -298,7 +298,7 @@ def bounded_while(budget=4000):
     return loop
 
 
-def save_every_step(solver, error, *, clip_dt, inner_budget=300, max_steps=5000):
+def save_every_step(solver, error, *, clip_dt, inner_budget=300, max_steps=5000, while_loop=None, jit=True, control=None):
     """The repository's save-every-step routine (probdiffeq.util.test_util) rebuilt from the same public pieces
     (RejectionLoop, control_integral) with *bounded* loops: returns solve(prior, t0, t1, atol, rtol, dt0) -> solution
     or None when a budget is exhausted (inconclusive, never a verdict)."""
@@ -307,22 +307,24 @@ def save_every_step(solver, error, *, clip_dt, inner_budget=300, max_steps=5000)
     from probdiffeq import ivpsolve
     from probdiffeq.backend import tree
 
-    loop = ivpsolve.RejectionLoop(solver=solver, clip_dt=clip_dt, control=ivpsolve.control_integral(), error=error,
-                                  while_loop=bounded_while(inner_budget))
-    apply = jax.jit(loop.loop)
+    # while_loop / jit=False: eager runs behind recording proxies (the supplied loop raises on its own budget)
+    loop = ivpsolve.RejectionLoop(solver=solver, clip_dt=clip_dt, control=control if control is not None else ivpsolve.control_integral(), error=error,
+                                  while_loop=while_loop if while_loop is not None else bounded_while(inner_budget))
+    _jit = jax.jit if jit else (lambda f: f)
+    apply = _jit(loop.loop)
 
     def solve(prior, t0, t1, *, atol, rtol, dt0, eps=1e-8, damp=0.0):
         t0_, t1_ = jnp.asarray(t0), jnp.asarray(t1)
-        sol0 = jax.jit(solver.init)(t=t0_, u=prior, damp=damp)
-        state = jax.jit(loop.init)(sol0, dt=dt0)
+        sol0 = _jit(solver.init)(t=t0_, u=prior, damp=damp)
+        state = _jit(loop.init)(sol0, dt=dt0)
         sols = []
         while float(state.step_from.t) < float(t1_):
             solution, state = apply(state, t1=t1_, eps=eps, atol=atol, rtol=rtol, damp=damp)
-            sols.append(solution)
+            sols.append(jax.tree.map(jnp.asarray, solution))  # eager runs carry Python scalars in some leaves
             if len(sols) > max_steps or not np.isfinite(float(state.step_from.t)):
                 return None
         stacked = tree.tree_array_stack(sols)
-        return jax.jit(solver.userfriendly_output)(solution0=sol0, solution=stacked, solution1=state.step_from)
+        return _jit(solver.userfriendly_output)(solution0=sol0, solution=stacked, solution1=state.step_from)
 
     return solve
 
